@@ -125,8 +125,12 @@ Enums1(ras, rcs, styles) == {d \in {MkEnum(ra, tg, <<[v EXCEPT !.rclass = rc, !.
 Enums2(ras, rcs) == {d \in {MkEnum(ra, tg, <<VStyled([v1 EXCEPT !.rclass = rc], 1), VStyled(v2, 2)>>)
                               : ra \in ras, tg \in Taggings, v1 \in VShapes, v2 \in VShapes, rc \in rcs} : WFEnum(d)}
 
+\* container attributes `into = "Out"` (serde writes the value through the type Out) alone and together with `from = "In"` (and reads it
+\* through In, a type of another shape): what serde writes are Out's keys.  The relation is judged on the written values as for every other
+\* definition; the reference of serde's behaviour (RefValue ..) does not model proxy types and is not consulted (field `proxy`).
+ProxyStructs == {MkStruct(ra, FALSE, <<BaseF>>) @@ [proxy |-> p] : ra \in {"none", "camelCase"}, p \in {"into", "both"}}
 \* ------------------------------------------------------------------ tiers
-QuickDefs == PairStructs
+QuickDefs == PairStructs \cup ProxyStructs
              \cup Structs2({<<"camelCase", FALSE>>, <<"none", TRUE>>})
              \cup Structs3({<<"PascalCase", FALSE>>})
              \cup EnumsMixed(Rules) \cup EnumsUnit(Rules)
